@@ -51,7 +51,7 @@ SCOPE_DEC_OPTS = [{}, {"keep_braced_groups": True}, {"keep_math_mode": False}, {
 
 def cases(tier, seed, shard, nshards):
     r = rng_for(seed, shard, "c18")
-    n = tier_pick(tier, 12000, 240000) // nshards
+    n = tier_pick(tier, 24000, 960000) // nshards
     for i in range(n):
         m = i % 6
         if m < 3:
